@@ -27,13 +27,39 @@ def compact(n):
 KEEP_METHODS = ('__init__', 'get_deltap', 'kernel', 'dwdq', 'gradient', 'gradient_h', 'py_kernel', 'py_dwdq', 'py_gradient', 'py_gradient_h', 'py_get_deltap')
 
 
+def name_roles(fn):
+    """the locals of a kernel method that hold q = rij/h and h1 = 1/h are called `q` and `h1` in the analysed copy, whatever the source calls them (the rules speak about
+    the dimensionless radius, not about a variable name)"""
+    from verif_static.norm import same as same_
+    params = [a.arg for a in fn.args.args]
+    if 'rij' not in params or 'h' not in params:
+        return
+    defs = [(a.targets[0].id, a.value) for a in ast.walk(fn) if isinstance(a, ast.Assign) and len(a.targets) == 1 and isinstance(a.targets[0], ast.Name)]
+    used = set(x.id for x in ast.walk(fn) if isinstance(x, ast.Name)) | set(params)
+    ren = {}
+    h1n = [n_ for n_, v_ in defs if same_(v_, '1.0/h', '1/h')]
+    if len(set(h1n)) == 1 and h1n[0] != 'h1' and 'h1' not in used:
+        ren[h1n[0]] = 'h1'
+    h1name = h1n[0] if len(set(h1n)) == 1 else 'h1'
+    qn = [n_ for n_, v_ in defs if same_(v_, 'rij/h', 'rij*%s' % h1name, 'rij*(1.0/h)')]
+    if len(set(qn)) == 1 and qn[0] != 'q' and 'q' not in used:
+        ren[qn[0]] = 'q'
+    for x in ast.walk(fn):
+        if isinstance(x, ast.Name) and x.id in ren:
+            x.id = ren[x.id]
+
+
 def kernel_classes(tree):
-    """the kernel classes, with helper methods a maintainer may have factored out of kernel / dwdq / gradient / gradient_h inlined again (model.inline_helpers)"""
+    """the kernel classes, with helper methods a maintainer may have factored out of kernel / dwdq / gradient / gradient_h inlined again (model.inline_helpers), and the
+    locals that hold q and 1/h under those names"""
     out = []
     for c in M.classes(tree):
         if 'kernel' in M.methods(c) and 'gradient' in M.methods(c):
             extra = [m for m in M.methods(c) if m not in KEEP_METHODS]
-            out.append(M.inlined_class(c, keep=KEEP_METHODS) if extra else c)
+            c2 = M.inlined_class(c, keep=KEEP_METHODS) if extra else c
+            for f_ in M.methods(c2).values():
+                name_roles(f_)
+            out.append(c2)
     return out
 
 
@@ -679,8 +705,11 @@ def pieces(fn):
                 t = compact(subst(s.test, env))
                 COND_AST[t] = subst(s.test, env)
                 if t.startswith('self.dim=='):
+                    # the dimension-dependent normalising factor: whatever local the chain over self.dim assigns stands for it
                     env = dict(env)
-                    env['fac'] = ast.Name(id='FAC', ctx=ast.Load())
+                    for a_ in ast.walk(s):
+                        if isinstance(a_, ast.Assign) and isinstance(a_.targets[0], ast.Name):
+                            env[a_.targets[0].id] = ast.Name(id='FAC', ctx=ast.Load())
                     continue
                 rest = stmts[i + 1:]
                 walk(list(s.body) + rest, env, conds + ((t, True),))
